@@ -191,6 +191,17 @@ var (
 	}
 )
 
+func init() {
+	// The proto JSON codec writes an enum with its String() form ("running", "completed", ...) but reads it
+	// back through the registered value map, which only knows the proto names. Accept what is written.
+	for name, state := range StringToRequestContextStateMap {
+		RequestContextState_value[name] = int32(state)
+	}
+	for name, state := range StringToRequestContextBatchStateMap {
+		RequestContextBatchState_value[name] = int32(state)
+	}
+}
+
 func RequestContextStateFromString(str string) (RequestContextState, error) {
 	if state, ok := StringToRequestContextStateMap[strings.ToLower(str)]; ok {
 		return state, nil
